@@ -52,6 +52,7 @@ VARIABLES
   car,      \* [Carriers -> "unborn" | "pool" | "popped" | "live" | "frozen" | "dead"]  client view of the peer
   owner,    \* [Carriers -> Sessions \cup {None}]  which session popped it
   broken,   \* [Carriers -> BOOLEAN]  the transport under it is cut (client has not yet tried to use it)
+  marked,   \* [Carriers -> BOOLEAN]  ... and the client's close callback has run: WebRTCPeer.Closed() is true
   att,      \* [Carriers -> BOOLEAN]  the server's handler is attached (it read token + ClientID)
   cur,      \* [Sessions -> Carriers \cup {0}]  carrier the redial layer currently exchanges on
   dead,     \* [Sessions -> BOOLEAN]  the redial layer closed for good
@@ -65,11 +66,11 @@ VARIABLES
   nf,       \* faults so far
   ndrop     \* queue-full drops so far
 
-vars == <<car, owner, broken, att, cur, dead, csend, up, outQ, down, rcvU, rcvD, acc, nf, ndrop>>
+vars == <<car, owner, broken, marked, att, cur, dead, csend, up, outQ, down, rcvU, rcvD, acc, nf, ndrop>>
 
 Init ==
   /\ car = [k \in Carriers |-> "unborn"] /\ owner = [k \in Carriers |-> None]
-  /\ broken = [k \in Carriers |-> FALSE] /\ att = [k \in Carriers |-> FALSE]
+  /\ broken = [k \in Carriers |-> FALSE] /\ marked = [k \in Carriers |-> FALSE] /\ att = [k \in Carriers |-> FALSE]
   /\ cur = [s \in Sessions |-> 0] /\ dead = [s \in Sessions |-> FALSE]
   /\ csend = [s \in Sessions |-> 0] /\ up = [k \in Carriers |-> 0]
   /\ outQ = [s \in Sessions |-> 0] /\ down = [k \in Carriers |-> 0]
@@ -92,15 +93,32 @@ InFlightDown(s, i) == outQ[s] = i \/ \E k \in Carriers : owner[k] = s /\ down[k]
 Collect(k) ==
   /\ car[k] = "unborn" /\ \A j \in Carriers : j < k => car[j] # "unborn"
   /\ car' = [car EXCEPT ![k] = "pool"]
-  /\ UNCHANGED <<owner, broken, att, cur, dead, csend, up, outQ, down, rcvU, rcvD, acc, nf, ndrop>>
+  /\ UNCHANGED <<owner, broken, marked, att, cur, dead, csend, up, outQ, down, rcvU, rcvD, acc, nf, ndrop>>
 
 (* dialContext: snowflakes.Pop() (skips peers that are already closed). *)
 Pop(s, k) ==
-  /\ ~dead[s] /\ cur[s] = 0 /\ car[k] = "pool"
+  /\ ~dead[s] /\ cur[s] = 0 /\ car[k] = "pool" /\ ~marked[k]
   /\ \A j \in Carriers : owner[j] = s => car[j] # "popped"
   /\ \A j \in Carriers : j < k => car[j] # "pool"
   /\ car' = [car EXCEPT ![k] = "popped"] /\ owner' = [owner EXCEPT ![k] = s]
-  /\ UNCHANGED <<broken, att, cur, dead, csend, up, outQ, down, rcvU, rcvD, acc, nf, ndrop>>
+  /\ UNCHANGED <<broken, marked, att, cur, dead, csend, up, outQ, down, rcvU, rcvD, acc, nf, ndrop>>
+
+(* Pop's loop: `if snowflake.Closed() { continue }` - a reserve that died in
+   the pool AND is already marked closed is dropped without being used. *)
+PopSkip(s, k) ==
+  /\ ~dead[s] /\ cur[s] = 0 /\ car[k] = "pool" /\ marked[k]
+  /\ \A j \in Carriers : owner[j] = s => car[j] # "popped"
+  /\ \A j \in Carriers : j < k => car[j] # "pool"
+  /\ car' = [car EXCEPT ![k] = "dead"]
+  /\ UNCHANGED <<owner, broken, marked, att, cur, dead, csend, up, outQ, down, rcvU, rcvD, acc, nf, ndrop>>
+
+(* The client's data channel OnClose callback runs some time after the
+   transport died: only then is the peer MARKED closed (WebRTCPeer.Closed()).
+   Until then a dead peer looks usable to Pop and fails at its first write. *)
+MarkClosed(k) ==
+  /\ broken[k] /\ ~marked[k] /\ car[k] \in {"pool", "popped"}
+  /\ marked' = [marked EXCEPT ![k] = TRUE]
+  /\ UNCHANGED <<car, owner, broken, att, cur, dead, csend, up, outQ, down, rcvU, rcvD, acc, nf, ndrop>>
 
 (* conn.Write(Token); conn.Write(clientID): the carrier becomes the current one
    and the server's handler attaches. *)
@@ -108,19 +126,28 @@ WriteId(s, k) ==
   /\ car[k] = "popped" /\ owner[k] = s /\ ~broken[k]
   /\ car' = [car EXCEPT ![k] = "live"] /\ cur' = [cur EXCEPT ![s] = k]
   /\ att' = [att EXCEPT ![k] = TRUE]
-  /\ UNCHANGED <<owner, broken, dead, csend, up, outQ, down, rcvU, rcvD, acc, nf, ndrop>>
+  /\ UNCHANGED <<owner, broken, marked, dead, csend, up, outQ, down, rcvU, rcvD, acc, nf, ndrop>>
 
-(* The peer died between Pop and the first write. *)
-WriteIdFails(s, k) ==
+(* The first write on the popped peer fails: its transport died after Pop's
+   closed-check (or before it, but the close callback had not run yet).  Two
+   sub-cases, which the client must treat alike - close this peer and pop the
+   next one; returning the error instead would close the RedialPacketConn for
+   good (D15, and its narrowed variant that skips only peers already marked):
+     WriteIdFailsMarked    the close callback has already marked the peer closed;
+     WriteIdFailsUnmarked  the write fails while Closed() is still false. *)
+WriteIdFailsEffect(s, k) ==
   /\ car[k] = "popped" /\ owner[k] = s /\ broken[k]
   /\ car' = [car EXCEPT ![k] = "dead"]
-  /\ UNCHANGED <<owner, broken, att, cur, dead, csend, up, outQ, down, rcvU, rcvD, acc, nf, ndrop>>
+  /\ UNCHANGED <<owner, broken, marked, att, cur, dead, csend, up, outQ, down, rcvU, rcvD, acc, nf, ndrop>>
+WriteIdFailsMarked(s, k)   == marked[k] /\ WriteIdFailsEffect(s, k)
+WriteIdFailsUnmarked(s, k) == ~marked[k] /\ WriteIdFailsEffect(s, k)
+WriteIdFails(s, k) == WriteIdFailsMarked(s, k) \/ WriteIdFailsUnmarked(s, k)
 
 (* WebRTCPeer.checkForStaleness: nothing received for the timeout. *)
 StaleClose(s) ==
   /\ cur[s] # 0 /\ car[cur[s]] = "frozen"
   /\ car' = [car EXCEPT ![cur[s]] = "dead"] /\ cur' = [cur EXCEPT ![s] = 0]
-  /\ UNCHANGED <<owner, broken, att, dead, csend, up, outQ, down, rcvU, rcvD, acc, nf, ndrop>>
+  /\ UNCHANGED <<owner, broken, marked, att, dead, csend, up, outQ, down, rcvU, rcvD, acc, nf, ndrop>>
 
 -----------------------------------------------------------------------------
 (* Packets. *)
@@ -129,7 +156,7 @@ StaleClose(s) ==
 ClientSend(s, i) ==
   /\ ~dead[s] /\ i \in Segs(NUp) /\ i \notin rcvU[s] /\ ~InFlightUp(s, i) /\ csend[s] = 0
   /\ csend' = [csend EXCEPT ![s] = i]
-  /\ UNCHANGED <<car, owner, broken, att, cur, dead, up, outQ, down, rcvU, rcvD, acc, nf, ndrop>>
+  /\ UNCHANGED <<car, owner, broken, marked, att, cur, dead, up, outQ, down, rcvU, rcvD, acc, nf, ndrop>>
 
 (* The send queue is full (nobody drains it: the redial layer is between two
    carriers, or the carrier is slow): RedialPacketConn.WriteTo DROPS the packet
@@ -142,7 +169,7 @@ ClientSendDrop(s, i) ==
   /\ ndrop < MaxDrops
   /\ ~dead[s] /\ i \in Segs(NUp) /\ i \notin rcvU[s] /\ ~InFlightUp(s, i) /\ csend[s] # 0
   /\ ndrop' = ndrop + 1
-  /\ UNCHANGED <<car, owner, broken, att, cur, dead, csend, up, outQ, down, rcvU, rcvD, acc, nf>>
+  /\ UNCHANGED <<car, owner, broken, marked, att, cur, dead, csend, up, outQ, down, rcvU, rcvD, acc, nf>>
 
 (* exchange: sendQueue -> conn.WriteTo on the current carrier (a frozen
    carrier swallows the packet). *)
@@ -150,14 +177,14 @@ CarrierUp(s) ==
   /\ csend[s] # 0 /\ cur[s] # 0 /\ up[cur[s]] = 0
   /\ up' = [up EXCEPT ![cur[s]] = IF car[cur[s]] = "live" THEN csend[s] ELSE 0]
   /\ csend' = [csend EXCEPT ![s] = 0]
-  /\ UNCHANGED <<car, owner, broken, att, cur, dead, outQ, down, rcvU, rcvD, acc, nf, ndrop>>
+  /\ UNCHANGED <<car, owner, broken, marked, att, cur, dead, outQ, down, rcvU, rcvD, acc, nf, ndrop>>
 
 (* ServerMux: QueueIncoming tagged with the carrier's ClientID + KcpInput. *)
 ServerRecv(k) ==
   /\ att[k] /\ up[k] # 0
   /\ rcvU' = [rcvU EXCEPT ![owner[k]] = @ \cup {up[k]}]
   /\ up' = [up EXCEPT ![k] = 0]
-  /\ UNCHANGED <<car, owner, broken, att, cur, dead, csend, outQ, down, rcvD, acc, nf, ndrop>>
+  /\ UNCHANGED <<car, owner, broken, marked, att, cur, dead, csend, outQ, down, rcvD, acc, nf, ndrop>>
 
 (* ServerMux: Accept.  The stream open rides on the first upstream segment;
    with nothing to send upstream the open itself is segment "0": accepted as
@@ -166,13 +193,13 @@ Accept(s) ==
   /\ acc[s] = 0
   /\ IF NUp = 0 THEN \E k \in Carriers : owner[k] = s /\ att[k] ELSE 1 \in rcvU[s]
   /\ acc' = [acc EXCEPT ![s] = @ + 1]
-  /\ UNCHANGED <<car, owner, broken, att, cur, dead, csend, up, outQ, down, rcvU, rcvD, nf, ndrop>>
+  /\ UNCHANGED <<car, owner, broken, marked, att, cur, dead, csend, up, outQ, down, rcvU, rcvD, nf, ndrop>>
 
 (* The server's reliable layer (re)transmits: QueuePacketConn.WriteTo. *)
 ServerSend(s, i) ==
   /\ acc[s] > 0 /\ i \in Segs(NDown) /\ i \notin rcvD[s] /\ ~InFlightDown(s, i) /\ outQ[s] = 0
   /\ outQ' = [outQ EXCEPT ![s] = i]
-  /\ UNCHANGED <<car, owner, broken, att, cur, dead, csend, up, down, rcvU, rcvD, acc, nf, ndrop>>
+  /\ UNCHANGED <<car, owner, broken, marked, att, cur, dead, csend, up, down, rcvU, rcvD, acc, nf, ndrop>>
 
 (* The per-client outgoing queue is full (no carrier of the session is
    attached, or it is half-open and slow): QueuePacketConn.WriteTo drops the
@@ -181,7 +208,7 @@ ServerSendDrop(s, i) ==
   /\ ndrop < MaxDrops
   /\ acc[s] > 0 /\ i \in Segs(NDown) /\ i \notin rcvD[s] /\ ~InFlightDown(s, i) /\ outQ[s] # 0
   /\ ndrop' = ndrop + 1
-  /\ UNCHANGED <<car, owner, broken, att, cur, dead, csend, up, outQ, down, rcvU, rcvD, acc, nf>>
+  /\ UNCHANGED <<car, owner, broken, marked, att, cur, dead, csend, up, outQ, down, rcvU, rcvD, acc, nf>>
 
 (* ServerMux: DownFrame(k) pops the outgoing queue of the carrier's ClientID;
    a half-open or frozen carrier swallows the packet. *)
@@ -189,35 +216,37 @@ DownFrame(k) ==
   /\ att[k] /\ outQ[owner[k]] # 0 /\ down[k] = 0
   /\ down' = [down EXCEPT ![k] = IF car[k] = "live" /\ ~broken[k] THEN outQ[owner[k]] ELSE 0]
   /\ outQ' = [outQ EXCEPT ![owner[k]] = 0]
-  /\ UNCHANGED <<car, owner, broken, att, cur, dead, csend, up, rcvU, rcvD, acc, nf, ndrop>>
+  /\ UNCHANGED <<car, owner, broken, marked, att, cur, dead, csend, up, rcvU, rcvD, acc, nf, ndrop>>
 
 (* exchange: conn.ReadFrom -> recvQueue -> the client's reliable layer. *)
 ClientRecv(s) ==
   /\ cur[s] # 0 /\ down[cur[s]] # 0
   /\ rcvD' = [rcvD EXCEPT ![s] = @ \cup {down[cur[s]]}]
   /\ down' = [down EXCEPT ![cur[s]] = 0]
-  /\ UNCHANGED <<car, owner, broken, att, cur, dead, csend, up, outQ, rcvU, acc, nf, ndrop>>
+  /\ UNCHANGED <<car, owner, broken, marked, att, cur, dead, csend, up, outQ, rcvU, acc, nf, ndrop>>
 
 (* The server's handler notices that its carrier is gone. *)
 SrvDetach(k) ==
   /\ att[k] /\ car[k] = "dead" /\ up[k] = 0
   /\ att' = [att EXCEPT ![k] = FALSE]
-  /\ UNCHANGED <<car, owner, broken, cur, dead, csend, up, outQ, down, rcvU, rcvD, acc, nf, ndrop>>
+  /\ UNCHANGED <<car, owner, broken, marked, cur, dead, csend, up, outQ, down, rcvU, rcvD, acc, nf, ndrop>>
 
 -----------------------------------------------------------------------------
 (* Faults (environment; bounded by MaxFaults; no fairness). *)
 
 (* The proxy dies / the TCP connection is cut: everything in flight on k is
-   lost; a current carrier is dropped by the client at once. *)
+   lost; a current carrier is dropped by the client at once; a reserve that
+   dies in the pool or between Pop and its first write is only broken - the
+   client finds out at MarkClosed or at the failing write. *)
 Cut(k) ==
-  /\ nf < MaxFaults /\ car[k] \in {"popped", "live", "frozen"} /\ ~broken[k]
+  /\ nf < MaxFaults /\ car[k] \in {"pool", "popped", "live", "frozen"} /\ ~broken[k]
   /\ nf' = nf + 1
   /\ up' = [up EXCEPT ![k] = 0] /\ down' = [down EXCEPT ![k] = 0]
-  /\ IF car[k] = "popped"
+  /\ IF car[k] \in {"pool", "popped"}
        THEN broken' = [broken EXCEPT ![k] = TRUE] /\ UNCHANGED <<car, cur>>
        ELSE /\ car' = [car EXCEPT ![k] = "dead"] /\ UNCHANGED broken
             /\ cur' = [s \in Sessions |-> IF cur[s] = k THEN 0 ELSE cur[s]]
-  /\ UNCHANGED <<owner, att, dead, csend, outQ, rcvU, rcvD, acc, ndrop>>
+  /\ UNCHANGED <<owner, marked, att, dead, csend, outQ, rcvU, rcvD, acc, ndrop>>
 
 (* The proxy freezes (SIGSTOP, black hole): nothing passes any more. *)
 Freeze(k) ==
@@ -225,18 +254,20 @@ Freeze(k) ==
   /\ nf' = nf + 1
   /\ car' = [car EXCEPT ![k] = "frozen"]
   /\ up' = [up EXCEPT ![k] = 0] /\ down' = [down EXCEPT ![k] = 0]
-  /\ UNCHANGED <<owner, broken, att, cur, dead, csend, outQ, rcvU, rcvD, acc, ndrop>>
+  /\ UNCHANGED <<owner, broken, marked, att, cur, dead, csend, outQ, rcvU, rcvD, acc, ndrop>>
 
 (* The broker's answer is lost / no proxy: this proxy never materialises. *)
 AnswerLost(k) ==
   /\ nf < MaxFaults /\ car[k] = "unborn" /\ \A j \in Carriers : j < k => car[j] # "unborn"
   /\ nf' = nf + 1
   /\ car' = [car EXCEPT ![k] = "dead"]
-  /\ UNCHANGED <<owner, broken, att, cur, dead, csend, up, outQ, down, rcvU, rcvD, acc, ndrop>>
+  /\ UNCHANGED <<owner, broken, marked, att, cur, dead, csend, up, outQ, down, rcvU, rcvD, acc, ndrop>>
 
 -----------------------------------------------------------------------------
 ClientNext ==
-  \/ \E s \in Sessions, k \in Carriers : Pop(s, k) \/ WriteId(s, k) \/ WriteIdFails(s, k)
+  \/ \E s \in Sessions, k \in Carriers : Pop(s, k) \/ PopSkip(s, k) \/ WriteId(s, k)
+  \/ \E s \in Sessions, k \in Carriers : WriteIdFailsMarked(s, k) \/ WriteIdFailsUnmarked(s, k)
+  \/ \E k \in Carriers : MarkClosed(k)
   \/ \E s \in Sessions : StaleClose(s) \/ CarrierUp(s) \/ ClientRecv(s)
   \/ \E s \in Sessions, i \in Segs(NUp) : ClientSend(s, i) \/ ClientSendDrop(s, i)
 ServerNext ==
@@ -254,7 +285,7 @@ Spec == Init /\ [][Next]_vars
 (* One weak-fairness conjunct per goroutine step; none for faults.  Collect is
    the property's proviso "some working proxy eventually becomes available". *)
 Fair ==
-  /\ \A s \in Sessions, k \in Carriers : WF_vars(Pop(s, k)) /\ WF_vars(WriteId(s, k)) /\ WF_vars(WriteIdFails(s, k))
+  /\ \A s \in Sessions, k \in Carriers : WF_vars(Pop(s, k)) /\ WF_vars(PopSkip(s, k)) /\ WF_vars(WriteId(s, k)) /\ WF_vars(WriteIdFails(s, k))
   /\ \A s \in Sessions : WF_vars(StaleClose(s)) /\ WF_vars(CarrierUp(s)) /\ WF_vars(ClientRecv(s)) /\ WF_vars(Accept(s))
   /\ \A s \in Sessions, i \in Segs(NUp) : WF_vars(ClientSend(s, i))
   /\ \A s \in Sessions, i \in Segs(NDown) : WF_vars(ServerSend(s, i))
